@@ -10,8 +10,8 @@ from .containers import RealContainers
 from .refmodels import RefPQ, RefPos
 
 PROP = "C17"
-LEAN_TARGETS = ["Asynkit.Props.C17"]
-PROPS_FILES = ["Asynkit/Props/C17.lean"]
+LEAN_TARGETS = ["Asynkit.Props.C17", "Asynkit.Lemmas.GenEq"]
+PROPS_FILES = ["Asynkit/Props/C17.lean", "Asynkit/Lemmas/GenEq.lean"]
 DRIVERS = ["PQ"]
 TRUSTED = [
     "Lean 4.33 kernel; axioms ⊆ {propext, Classical.choice, Quot.sound} (audited per theorem each run)",
